@@ -107,7 +107,7 @@ def gen_backend(rng, ant, el, big_w=False, wide=False):
     W = rng.choice([1, 2, 3, 4, 5, 6, 7, 8, 12])        # PFB windows per block
     nsub = rng.randint(1, W + 3)
     if big_w:
-        W = rng.choice([257, 300, 341, 511, 600, 1023])
+        W = rng.choice([257, 300, 341, 511, 600, 1023, 1366, 2050, 3000])
         nsub = rng.choice([1, 1, 2, 3, 4, 5, 7, 93])
     if wide:
         # a block of more than 2**20 samples with a channel count that is not a power of two
